@@ -331,7 +331,15 @@ func (b *broker) removeSession(sess *wamp.Session) {
 		return
 	}
 	b.actionChan <- func() {
-		b.syncRemoveSession(sess)
+		b.syncRemoveSession(sess, false)
+	}
+}
+
+// removeSessionQuiet removes all subscriptions of the subscriber without
+// publishing meta events. This is called when the realm is shutting down.
+func (b *broker) removeSessionQuiet(sess *wamp.Session) {
+	b.actionChan <- func() {
+		b.syncRemoveSession(sess, true)
 	}
 }
 
@@ -554,7 +562,7 @@ func (b *broker) syncUnsubscribe(subscriber *wamp.Session, msg *wamp.Unsubscribe
 }
 
 // syncRemoveSession removed all subscriptions for the session.
-func (b *broker) syncRemoveSession(subscriber *wamp.Session) {
+func (b *broker) syncRemoveSession(subscriber *wamp.Session, quiet bool) {
 	subIDSet, ok := b.sessionSubIDSet[subscriber]
 	if !ok {
 		return
@@ -577,6 +585,9 @@ func (b *broker) syncRemoveSession(subscriber *wamp.Session) {
 		// keeps event history.
 		if _, keep := b.eventHistoryStore[sub]; len(sub.subscribers) == 0 && !keep {
 			b.syncDelSubscription(sub)
+			if quiet {
+				continue
+			}
 			// Fired when a subscription is deleted after the last session
 			// attached to it has been removed.
 			b.syncPubSubMeta(wamp.MetaEventSubOnDelete, subscriber.ID, subID)
